@@ -3,10 +3,52 @@
 package curried
 
 // Contracts for package curried, checked by /verif/govc.  Comment-only file.
+//
+// Notation: a curried function of arity N is  fp.Func1[A1, fp.Func1[A2, … fp.Func1[AN, R]…]].
+// Every position has its own type parameter, so a misplaced argument is either a type
+// error or a refuted equality.
 
+//@ lemma func1Def[A1, R any](f func(A1) R, a1 A1)
+//@   prop C14
+//@   ensures EqT(Func1(f)(a1), f(a1))
+//@   ensures Eq(Func1(f), fp.Func1[A1, R](f))
+//
 //@ schema N=2..9
 //@ lemma func{N}Def[<<i=1..N|, |A$i>>, R any](f func(<<i=1..N|, |A$i>>) R, <<i=1..N|, |a$i A$i>>)
 //@   prop C14
 //@   ensures EqT(Func{N}(f)<<i=1..N||(a$i)>>, f(<<i=1..N|, |a$i>>))
 //@   ensures Eq(Revert{N}(Func{N}(f)), f)
+//
+// Revert{N}(c)(a1, …, aN) = c(a1)…(aN), and Func{N} is its inverse on curried functions.
+//@ lemma revert{N}Def[<<i=1..N|, |A$i>>, R any](c <<i=1..N||fp.Func1[A$i, >>R<<i=1..N||]>>, <<i=1..N|, |a$i A$i>>)
+//@   prop C14
+//@   ensures EqT(Revert{N}(c)(<<i=1..N|, |a$i>>), c<<i=1..N||(a$i)>>)
+//@   ensures EqT(Func{N}(Revert{N}(c))<<i=1..N||(a$i)>>, c<<i=1..N||(a$i)>>)
+//
+// Compose{N}(c, g)(a1)…(aN) = g(c(a1)…(aN))
+//@ lemma compose{N}Def[<<i=1..N|, |A$i>>, GA, GR any](c <<i=1..N||fp.Func1[A$i, >>GA<<i=1..N||]>>, g fp.Func1[GA, GR], <<i=1..N|, |a$i A$i>>)
+//@   prop C14
+//@   ensures EqT(Compose{N}(c, g)<<i=1..N||(a$i)>>, g(c<<i=1..N||(a$i)>>))
+//@ schema end
+//
+// Flip(c)(a2)(a1) = c(a1)(a2);  FlipApply(c, a2)(a1) = c(a1)(a2)
+//@ lemma flipDef[A1, A2, R any](c fp.Func1[A1, fp.Func1[A2, R]], a1 A1, a2 A2)
+//@   prop C14
+//@   ensures EqT(Flip(c)(a2)(a1), c(a1)(a2))
+//@   ensures EqT(FlipApply(c, a2)(a1), c(a1)(a2))
+//@   ensures EqT(Flip(Flip(c))(a1)(a2), c(a1)(a2))
+//
+// Flip{N-1} / FlipApply{N-1} act on curried functions of arity N: the FIRST argument moves to the last position.
+//   Flip{N-1}(c)(a2)…(aN)(a1) = c(a1)(a2)…(aN)
+//   FlipApply{N-1}(c, a2, …, aN)(a1) = c(a1)(a2)…(aN)
+// SlipL{N}: the LAST argument moves to the first position.
+//   SlipL{N}(c)(aN)(a1)…(a{N-1}) = c(a1)…(aN)
+//@ schema N=3..9
+//@ lemma flip{N-1}Def[<<i=1..N|, |A$i>>, R any](c <<i=1..N||fp.Func1[A$i, >>R<<i=1..N||]>>, <<i=1..N|, |a$i A$i>>)
+//@   prop C14
+//@   ensures EqT(Flip{N-1}(c)<<i=2..N||(a$i)>>(a1), c<<i=1..N||(a$i)>>)
+//@   ensures EqT(FlipApply{N-1}(c, <<i=2..N|, |a$i>>)(a1), c<<i=1..N||(a$i)>>)
+//@   ensures EqT(SlipL{N}(c)(a{N})<<i=1..N-1||(a$i)>>, c<<i=1..N||(a$i)>>)
+//@   ensures EqT(SlipL{N}(Flip{N-1}(c))<<i=1..N||(a$i)>>, c<<i=1..N||(a$i)>>)
+//@   ensures EqT(Flip{N-1}(SlipL{N}(c))<<i=1..N||(a$i)>>, c<<i=1..N||(a$i)>>)
 //@ schema end
